@@ -8,6 +8,7 @@ import (
 	"math/big"
 	"testing"
 
+	eckeygen "github.com/bnb-chain/tss-lib/v2/ecdsa/keygen"
 	edkeygen "github.com/bnb-chain/tss-lib/v2/eddsa/keygen"
 	"pgregory.net/rapid"
 
@@ -54,6 +55,12 @@ func (k keyChoice) String() string { return fmt.Sprintf("%s n=%d t=%d keys=%s", 
 // resolveED returns the key data (by party index), sorted party keys and the secret key if known (dealer).
 func (k keyChoice) resolveED() ([]edkeygen.LocalPartySaveData, []*big.Int, *big.Int, error) {
 	switch k.Src {
+	case "mem":
+		d, ks := resolveMemED(k.Seed)
+		if d == nil {
+			return nil, nil, nil, fmt.Errorf("in-memory key %s not found", k.Seed)
+		}
+		return d, ks, nil, nil
 	case "dealer":
 		d := dealKeys(true, k.N, k.T, k.Pattern, k.Seed)
 		return d.ED, d.Keys, d.Secret, nil
@@ -167,6 +174,11 @@ func runC02(c c02Case) ev.Outcome {
 	}
 	return out
 }
+
+var (
+	resolveMemED func(id string) ([]edkeygen.LocalPartySaveData, []*big.Int)
+	resolveMemEC func(id string) ([]eckeygen.LocalPartySaveData, []*big.Int)
+)
 
 type runProblem struct{ sig, msg string }
 
